@@ -1190,6 +1190,10 @@ class InBodyPhase(Phase):
         self.parser.tokenizer.state = self.parser.tokenizer.rcdataState
         self.parser.dropNextNewline = True
         self.parser.framesetOK = False
+        # The content is handled by the "text" mode (in particular the active
+        # formatting elements are not reconstructed inside the textarea)
+        self.parser.originalPhase = self.parser.phase
+        self.parser.phase = self.parser.phases["text"]
 
     def startTagIFrame(self, token):
         self.parser.framesetOK = False
